@@ -33,7 +33,7 @@ func (c19) Info(t core.Tier) core.Info {
 	}
 }
 
-func (c19) NumCases(t core.Tier) int { return tierN(t, 2000, 100000) }
+func (c19) NumCases(t core.Tier) int { return tierN(t, 30000, 800000) }
 
 // scribble overwrites every mutable part of a destination in place (elements of slices, pointees, fields).
 func scribble(v reflect.Value, depth int) {
@@ -160,6 +160,21 @@ func c19Schema(r *rng.Rand) (*spec.Node, bool) {
 			case spec.String, spec.Slice, spec.Struct, spec.Int:
 				x.Posts = append(x.Posts, spec.Post{Name: "mutate-in-place", Fn: mutatingPost(x)})
 				special = true
+			}
+		}
+	})
+	// whether an element's post-transform ran before a sibling failed depends on the visit order (tolerated); a slice-level
+	// Contains would then see different element values from run to run: keep mutating transforms away from such elements
+	seen2 := map[*spec.Node]bool{}
+	n.Walk(func(x *spec.Node) {
+		if seen2[x] || x.Kind != spec.Slice {
+			return
+		}
+		seen2[x] = true
+		for _, t := range x.Tests {
+			if t.Op == spec.TContains {
+				x.Elem.Walk(func(e *spec.Node) { e.Posts = nil })
+				x.Posts = nil
 			}
 		}
 	})
